@@ -2,6 +2,7 @@
 import p_channel
 import p_halflock
 import p_iterator
+import p_probes
 import p_registry
 
 
@@ -44,4 +45,5 @@ def c09(chk, tier):
     p_iterator.run_iterator(chk, tier)
 
 
-CHECKS = {"C09": c09, "C10": c09, "C11": c09, "C02": c02, "C04": c02, "C05": c02, "C03": c02, "C01": c01, "C18": c18, "C06": c06, "C07": c06, "C08": c06}
+CHECKS = {"C12": p_probes.c12, "C13": p_probes.c13, "C14": p_probes.c14, "C15": p_probes.c15,
+          "C16": p_probes.c16, "C17": p_probes.c17, "C09": c09, "C10": c09, "C11": c09, "C02": c02, "C04": c02, "C05": c02, "C03": c02, "C01": c01, "C18": c18, "C06": c06, "C07": c06, "C08": c06}
